@@ -79,6 +79,11 @@ CLAIMED = {
          "steps, statuses attached to their own element, read-back through JsonParser), plain/progress2 one entry per processed step; "
          "outcomes, show_skipped, dry-run, --stop, selection and a raising feature cleanup symbolic", "DESIGN.md 4/C15",
          "symbolic execution of real code + z3 (path space by solver, per-path report comparison)"),
+ "C16": ("side queries: z3 over ALL code points (characters the live filter lets through are XML 1.0 Chars) and cvc5 str.replace_all over "
+         "all strings up to a stated length for the CDATA pipeline whose stage order is read from the live code; real runs with the real "
+         "JUnitReporter and hostile names/messages/captured output chosen symbolically: reports parse with expat, test cases == "
+         "scenarios with final status, counters == entries, failure/error entries name the step or hook", "DESIGN.md 4/C16",
+         "SMT side queries (z3 LIA, cvc5 strings) + symbolic execution of real code (path space by solver)"),
 }
 NA_REASON = "check not built yet in this round (planned, see DESIGN.md section 4)"
 checks = []
